@@ -16,7 +16,7 @@ PROP = "C12"
 
 def hooks_for(rng, p):
     mnems = sorted({e["mnem"] for e in p.table.values() if e["mnem"]})
-    foreign = [m for m in ("Nop", "Mov", "Ret", "Call", "Jmp", "Je", "Syscall", "Cmp", "Lea", "Push") if m not in mnems]
+    foreign = [m for m in ("Nop", "Mov", "Ret", "Call", "Jmp", "Je", "Syscall", "Int", "Int3", "Cmp", "Lea", "Push") if m not in mnems]
     hs = []
     for hid in range(1, rng.choice([1, 2, 3, 4, 5, 6]) + 1):
         m = rng.choice(mnems) if (rng.random() < 0.8 or not foreign) else rng.choice(foreign)
@@ -42,7 +42,7 @@ def followup_scenarios(rng, n):
             body.append({"op": "step"})
             if rng.random() < 0.3:
                 hid = 20 + len(body)
-                body.append(xc.hook_action(hid, rng.choice(["before", "after"]), rng.choice(["Nop", "Mov", "Ret", "Syscall", "Jmp"]),
+                body.append(xc.hook_action(hid, rng.choice(["before", "after"]), rng.choice(["Nop", "Mov", "Ret", "Syscall", "Jmp", "Int", "Int3", "Int1"]),
                                            rng.choice(["unhandled", "handled", "error"]), stop=rng.random() < 0.1))
         scs.append(xc.scenario(f"f{k}", p, pre + hs, body))
     return scs
